@@ -1,7 +1,7 @@
 (* Strings: text travels from the harness as lists of byte values and is rebuilt here. *)
 From Coq Require Import String Ascii List NArith ZArith Bool.
 Import ListNotations.
-Open Scope string_scope.
+Local Open Scope string_scope.
 
 Definition s_of_bytes (l : list N) : string :=
   fold_right (fun b s => String (ascii_of_N b) s) EmptyString l.
